@@ -382,9 +382,18 @@ impl LogState {
             eprint!("\r{:<width$.width$}\r", "", width = width);
             self.status = String::new();
         }
-        if !line_head.is_empty() {
-            // partial line never got terminated
-            print!("{}", line_head);
+        if !line_head.is_empty() && auto_bool_arg(&matches, "details").unwrap_or(true) {
+            // The last line never got terminated.  Show it like any other line
+            // of this target: after a "resumed" marker if something else was
+            // shown in between, and with a newline, so that the next record
+            // starts on a line of its own.
+            if interrupted != 0 {
+                let d = logs::reduce_depth();
+                logs::meta("resumed", t.as_str(), None);
+                logs::set_depth(d);
+            }
+            logs::write(&clean_line(&line_head));
+            lines_written += 1;
         }
         if t.as_str() != "-" {
             let last = self.depth.pop();
